@@ -15,7 +15,7 @@ import (
 func init() {
 	register(&PropRules{
 		ID:      "C03",
-		Explain: "Structural necessary conditions of C03 decided on /repo's SSA: (C03.1) every derivation of a user-file path Join(BaseDir,U) from a caller-supplied name is reachable, along all call paths from the exported store API, only under the fact userNameRe.MatchString(U)==true; (C03.2) every file-system primitive in package store takes a path of one of the confined shapes P_base / P_base/.tmp / temp file in it / P_base/<U>.user|.admin / directory-entry derived (read or stat only) / the configuration file (read only); (C03.3) Check and List count a directory entry only under valid==true; (C03.4) no file-system or exec primitive in cmd/whawty-auth takes an operand derived from request data. The regexp literal is compared with doc/SCHEMA.md.",
+		Explain: "Structural necessary conditions of C03 decided on /repo's SSA: (C03.1) every derivation of a user-file path Join(BaseDir,U) from a caller-supplied name is reachable, along all call paths from the exported store API, only under the fact userNameRe.MatchString(U)==true; (C03.2) every file-system primitive in package store takes a path of one of the confined shapes P_base / P_base/.tmp / temp file in it / P_base/<U>.user|.admin / directory-entry derived (read or stat only) / the configuration file (read only); (C03.3) Check and List count a directory entry only under valid==true; (C03.4) no file-system or exec primitive in cmd/whawty-auth takes an operand derived from request data; (C03.5) the only directory the module creates is <base>/.tmp, and a recursive MkdirAll of it runs only where the base directory is already known to exist on that path (a successful open, creating open, stat or readdir of the base directory or of an entry directly below it) — otherwise the call creates <base> and its missing ancestors; a plain Mkdir of exactly <base>/.tmp needs no such knowledge. The regexp literal is compared with doc/SCHEMA.md.",
 		Undec:   []string{"kernel path resolution (symlinks planted inside the base directory), NAME_MAX behaviour", "the system-call level view of a running process", "behaviour for each individual name string (only the guard structure is decided)"},
 		Run:     runC03,
 		Floors:  map[string]int{"C03.2": 7, "C03.1": 1},
@@ -36,6 +36,7 @@ var allowedShapes = map[string]map[string]bool{
 
 func runC03(c *an.Ctx, p *an.Prog, thorough bool) {
 	c032(c, p)
+	c035(c, p)
 	c031(c, p)
 	c033(c, p)
 	c034(c, p)
@@ -98,6 +99,41 @@ func c032(c *an.Ctx, p *an.Prog) {
 				c.OK("C03.2", key, p.InstrPos(ec.In), ec.Name+" ["+ec.Effect+"]: "+strings.Join(desc, "; "))
 			}
 		}
+	}
+}
+
+// c035: directory creation. C03.2 confines the operand of every mkdir primitive in package store to <base>/.tmp; this rule
+// adds what a *recursive* creation needs on top of that: os.MkdirAll(<base>/.tmp) also creates <base> and every missing
+// ancestor of it, objects outside the permitted set, unless the base directory exists when it runs. The pinned tree
+// guarantees this by order: getTempFile is reached only after writeHashStr has opened (add: created with O_EXCL) the
+// hash file directly below <base>. In the agent (package main) no directory derived from the base directory, and none
+// on the path of a store operation, may be created at all.
+func c035(c *an.Ctx, p *an.Prog) {
+	x := newFsx(p)
+	sites := dirCreateSites(c, p, x)
+	n := 0
+	for _, st := range sites {
+		if !st.Concerned {
+			continue
+		}
+		n++
+		pos := p.InstrPos(st.In)
+		what := st.Name + "(" + joinS(shapeStrings(st.Shapes)) + ")"
+		switch {
+		case len(st.Undec) > 0:
+			c.Undecided("C03.5", st.Key, pos, what+": "+strings.Join(uniqS(st.Undec), "; "))
+		case !st.Scratch:
+			c.Fail("C03.5", st.Key, pos, what+" creates a directory other than the scratch directory <base>/.tmp (or an entry of it)")
+		case st.Recursive && len(st.NoBase) > 0:
+			c.Fail("C03.5", st.Key, pos, what+" is recursive and reachable while the base directory may not exist: it would create <base> and every missing ancestor — "+strings.Join(uniqS(st.NoBase), "; "))
+		case st.Recursive:
+			c.OK("C03.5", st.Key, pos, what+": on every path from every entry point the base directory is known to exist before the call, so at most the entry .tmp is created")
+		default:
+			c.OK("C03.5", st.Key, pos, what+": not recursive — fails instead of creating a missing base directory")
+		}
+	}
+	if n == 0 {
+		c.OK("C03.5", "no-directory-creation", "-", "no directory-creating primitive in package store, none on store operations or base-derived paths in the agent")
 	}
 }
 
